@@ -86,15 +86,23 @@ theorem sum2_congr {j : Job} {f g : Nat → Nat → Nat}
 
 theorem start_step_cases (s : Start.State) (q : Nat) (e : Elem Nat) (h : s.missingTerm ≠ 0) :
     let res := Start.step s (.elem q e)
-    res.2.length ≤ 1 ∧
+    res.2.length ≤ 2 ∧
     res.1.missingTerm = s.missingTerm - (if e = .term then 1 else 0) ∧
     (res.1.missingTerm = 0 → res.2 = [.term]) ∧
     (res.1.missingTerm ≠ 0 → Elem.term ∉ res.2) ∧
-    (e.isData = true → res.2 = [e]) ∧
+    (e.isData = true → ∃ pre, res.2 = pre ++ [e] ∧ ∀ y ∈ pre, y.isData = false) ∧
     (e.isData = false → ∀ x ∈ res.2, x.isData = false) := by
   cases e with
-  | item a => simp [Start.step, h, Elem.isData]
-  | ts a t => simp [Start.step, h, Elem.isData]
+  | item a =>
+    simp only [Start.step, h, if_false]
+    cases hp : s.pending with
+    | none => simp [h, Elem.isData]
+    | some p => simp only [h]; exact ⟨by simp, by simp, by simp, by simp, fun _ => ⟨[.wm p], rfl, by simp [Elem.isData]⟩, by simp [Elem.isData]⟩
+  | ts a t =>
+    simp only [Start.step, h, if_false]
+    cases hp : s.pending with
+    | none => simp [h, Elem.isData]
+    | some p => simp only [h]; exact ⟨by simp, by simp, by simp, by simp, fun _ => ⟨[.wm p], rfl, by simp [Elem.isData]⟩, by simp [Elem.isData]⟩
   | flushBatch => simp [Start.step, h, Elem.isData]
   | wm t =>
     simp only [Start.step, h, if_false]
@@ -193,7 +201,8 @@ theorem tcount_of_no_term (c i : Nat) (l : List Send) (h : ∀ sd ∈ l, sd.elem
 /-! ## the weight of an element: how many steps it can still cause downstream -/
 
 def W (j : Job) (b : Nat) : Nat :=
-  1 + ((List.range j.nblocks).map fun c =>
+  -- factor 2: one received element can make `Start` yield two (a stashed watermark + the element)
+  1 + 2 * ((List.range j.nblocks).map fun c =>
         if b < c ∧ c < j.nblocks ∧ j.prev c = some b then j.replicas c * (1 + W j c) else 0).sum
 termination_by j.nblocks - b
 decreasing_by omega
@@ -227,11 +236,11 @@ theorem sum_map_le (l : List Nat) (f g : Nat → Nat) (h : ∀ x ∈ l, f x ≤ 
     have := ih (fun y hy => h y (by simp [hy]))
     omega
 
-/-- `W b = 1 + Σ_{c downstream of b} replicas c * (1 + W c)` -/
+/-- `W b = 1 + 2 * Σ_{c downstream of b} replicas c * (1 + W c)` -/
 theorem W_eq {j : Job} (wf : j.WF) (b : Nat) :
-    W j b = 1 + ((j.next b).map fun c => j.replicas c * (1 + W j c)).sum := by
+    W j b = 1 + 2 * ((j.next b).map fun c => j.replicas c * (1 + W j c)).sum := by
   rw [W, Job.next, sum_filter_map]
-  congr 1
+  congr 2
   apply sum_map_congr
   intro c hc
   have hc := List.mem_range.mp hc
@@ -249,9 +258,9 @@ theorem sendW_row (j : Job) (c n : Nat) (e : Elem Nat) :
     rw [List.range_succ, List.map_append, List.map_append, List.sum_append, ih, Nat.succ_mul]
     simp
 
-theorem sendW_sendsOf {j : Job} (wf : j.WF) (b r k : Nat) (e : Elem Nat) :
-    sendW j (sendsOf j b r k e) + 1 ≤ W j b := by
-  rw [W_eq wf b]
+theorem sendW_sendsOf_le {j : Job} (wf : j.WF) (b r k : Nat) (e : Elem Nat) :
+    sendW j (sendsOf j b r k e) + 1
+      ≤ 1 + ((j.next b).map fun c => j.replicas c * (1 + W j c)).sum := by
   have data : sendW j ((j.next b).map fun c => (⟨c, j.route b r c e k % j.replicas c, e⟩ : Send)) + 1
       ≤ 1 + ((j.next b).map fun c => j.replicas c * (1 + W j c)).sum := by
     unfold sendW
@@ -283,6 +292,14 @@ theorem sendW_sendsOf {j : Job} (wf : j.WF) (b r k : Nat) (e : Elem Nat) :
   | far => exact ctl
   | term => exact ctl
   | flushBatch => simp [sendsOf, sendW]
+
+theorem sendW_sendsOf {j : Job} (wf : j.WF) (b r k : Nat) (e : Elem Nat) :
+    sendW j (sendsOf j b r k e) + 1 ≤ W j b := by
+  have := sendW_sendsOf_le wf b r k e
+  rw [W_eq wf b]; omega
+
+theorem sendW_append (j : Job) (l1 l2 : List Send) : sendW j (l1 ++ l2) = sendW j l1 + sendW j l2 := by
+  simp [sendW]
 
 
 /-! ## the three kinds of real steps -/
@@ -1164,14 +1181,21 @@ theorem sendW_cons (j : Job) (sd : Send) (l : List Send) :
     sendW j (sd :: l) = 1 + W j sd.blk + sendW j l := by
   simp [sendW]
 
-theorem sendW_outs {j : Job} (wf : j.WF) (b r k : Nat) (outs : List (Elem Nat)) (hl : outs.length ≤ 1) :
+theorem sendW_outs {j : Job} (wf : j.WF) (b r k : Nat) (outs : List (Elem Nat)) (hl : outs.length ≤ 2) :
     sendW j (outs.flatMap (sendsOf j b r k)) + 1 ≤ W j b := by
+  rw [W_eq wf b]
   match outs, hl with
-  | [], _ => have := W_pos j b; simp [sendW]; omega
+  | [], _ => simp [sendW]
   | [x], _ =>
     simp only [List.flatMap_cons, List.flatMap_nil, List.append_nil]
-    exact sendW_sendsOf wf b r k x
-  | _ :: _ :: _, hl => simp at hl
+    have := sendW_sendsOf_le wf b r k x
+    omega
+  | [x, y], _ =>
+    simp only [List.flatMap_cons, List.flatMap_nil, List.append_nil, sendW_append]
+    have := sendW_sendsOf_le wf b r k x
+    have := sendW_sendsOf_le wf b r k y
+    omega
+  | _ :: _ :: _ :: _, hl => simp at hl
 
 theorem mu_step {j : Job} (wf : j.WF) {s : State} (h : Inv j s) {b r : Nat} (he : enabled j s b r) :
     mu j (step j s b r) < mu j s := by
@@ -1403,16 +1427,17 @@ theorem scnt_sendsOf {j : Job} (wf : j.WF) {b c : Nat} (hc : c < j.nblocks) (hp 
   | term => exact ctl rfl
   | flushBatch => exact ctl rfl
 
+theorem scnt_append (c : Nat) (x : Elem Nat) (l1 l2 : List Send) :
+    scnt c x (l1 ++ l2) = scnt c x l1 + scnt c x l2 := by simp [scnt, List.countP_append]
+
 theorem scnt_outs {j : Job} (wf : j.WF) {b c : Nat} (hc : c < j.nblocks) (hp : j.prev c = some b)
-    (r k : Nat) (outs : List (Elem Nat)) (hl : outs.length ≤ 1) (x : Elem Nat) (hx : x.isData = true) :
+    (r k : Nat) (outs : List (Elem Nat)) (x : Elem Nat) (hx : x.isData = true) :
     scnt c x (outs.flatMap (sendsOf j b r k)) = ecnt x outs := by
-  match outs, hl with
-  | [], _ => rfl
-  | [y], _ =>
-    simp only [List.flatMap_cons, List.flatMap_nil, List.append_nil]
-    rw [scnt_sendsOf wf hc hp r k y x hx]
-    simp [ecnt, List.countP_cons]
-  | _ :: _ :: _, hl => simp at hl
+  induction outs with
+  | nil => rfl
+  | cons y outs ih =>
+    rw [List.flatMap_cons, scnt_append, ih, scnt_sendsOf wf hc hp r k y x hx]
+    simp [ecnt, List.countP_cons]; omega
 
 /-- the second invariant: per link `b → c` the data handed to the chains of `b` is what the chains
     of `c` received + what is in the channels of `c` + what is pending towards `c`; the log of a
@@ -1547,7 +1572,7 @@ theorem inv2_step {j : Job} (wf : j.WF) {s : State} (h : Inv j s) (h2 : Inv2 j s
     have hchan : ∀ b' r', ¬ (b' = b0 ∧ r' = r0) → (recvState j s b0 r0 m ms).chan b' r' = s.chan b' r' :=
       fun b' r' hne => by simp only [recvState, set2_other _ _ _ _ _ _ hne]
     have hchs : (recvState j s b0 r0 m ms).chan b0 r0 = ms := by simp only [recvState, set2_same]
-    obtain ⟨hS1, _, _, _, hS5, hS6⟩ := start_step_cases (s.proc b0 r0).start m.sender m.elem hmt
+    obtain ⟨_, _, _, _, hS5, hS6⟩ := start_step_cases (s.proc b0 r0).start m.sender m.elem hmt
     have hself : (recvState j s b0 r0 m ms).proc b0 r0 = emit j b0 r0
         { s.proc b0 r0 with start := (Start.step (s.proc b0 r0).start (.elem m.sender m.elem)).1 }
         (Start.step (s.proc b0 r0).start (.elem m.sender m.elem)).2 := by
@@ -1556,7 +1581,17 @@ theorem inv2_step {j : Job} (wf : j.WF) {s : State} (h : Inv j s) (h2 : Inv2 j s
         ecnt x (Start.step (s.proc b0 r0).start (.elem m.sender m.elem)).2 = if m.elem = x then 1 else 0 := by
       intro x hx
       cases hd : m.elem.isData with
-      | true => rw [hS5 hd]; simp [ecnt, List.countP_cons]
+      | true =>
+        obtain ⟨pre, hpre, hnd⟩ := hS5 hd
+        rw [hpre, ecnt_append]
+        have h0 : ecnt x pre = 0 := by
+          unfold ecnt
+          rw [List.countP_eq_zero]
+          intro y hy
+          have := hnd y hy
+          simp only [decide_eq_true_eq]
+          intro hh; rw [hh, hx] at this; cases this
+        rw [h0]; simp [ecnt, List.countP_cons]
       | false =>
         have hne : m.elem ≠ x := by intro hh; rw [hh, hx] at hd; cases hd
         rw [if_neg hne]
@@ -1618,7 +1653,7 @@ theorem inv2_step {j : Job} (wf : j.WF) {s : State} (h : Inv j s) (h2 : Inv2 j s
             (by
               rw [hself, hp]
               simp only [emit]
-              rw [scnt_outs wf hcv hpc _ _ _ hS1 x hx, houts x hx]; simp [scnt])
+              rw [scnt_outs wf hcv hpc _ _ _ x hx, houts x hx]; simp [scnt])
           omega
         · have e2 : sumTo (j.replicas b) (fun q => ecnt x ((recvState j s b0 r0 m ms).proc b q).log)
               = sumTo (j.replicas b) (fun q => ecnt x (s.proc b q).log) :=
